@@ -6,6 +6,7 @@ import (
 	"strings"
 
 	cache "github.com/fufuok/cache"
+	"github.com/fufuok/cache/internal/vshim/sched"
 	vtime "github.com/fufuok/cache/internal/vshim/time"
 	"github.com/fufuok/cache/internal/xsync"
 )
@@ -162,6 +163,11 @@ func (e bulkEv) String() string {
 }
 
 func (b *bulkInst) Apply(ev int, check bool) (string, string) {
+	if b.n >= 100000 {
+		// very large histories: a call that spins forever must end as a verdict (applySafe turns the panic into one)
+		sched.SetBudget(400_000_000)
+		defer sched.SetBudget(0)
+	}
 	e := b.events[ev]
 	val := func(k int) int { return 10*k + 7 }
 	switch e.Kind {
@@ -326,6 +332,9 @@ func bulkSpec(name string, kind int, hint int, seed uint64, n int, depth int, co
 		// large tables (more counter stripes, 16384+ buckets): few, big steps
 		cuts, shrinks = []int{n}, []int{5, n / 2}
 	}
+	if n >= 100000 {
+		cuts, shrinks = []int{n}, []int{5}
+	}
 	var events []bulkEv
 	events = append(events, bulkEv{Kind: "probe"})
 	for _, c := range cuts {
@@ -465,6 +474,9 @@ func genC11(tier string) []*Scenario {
 				name := fmt.Sprintf("C11/resize-histories/%s/grow-only/hint=%d", bulkKinds[kind], hint)
 				out = append(out, &Scenario{Name: name, Prop: "C11", Seq: bulkSpec(name, kind, hint, 1, n, depth, 0, xsync.WithGrowOnly()), ExpectOutcomes: 2})
 			}
+			// a table that has doubled 12 times (131072 root buckets): index bits, lengths and counters beyond 16 bits
+			nameH := fmt.Sprintf("C11/resize-histories/%s/huge-table", bulkKinds[kind])
+			out = append(out, &Scenario{Name: nameH, Prop: "C11", Seq: bulkSpec(nameH, kind, 0, 1, 300000, 1+lvl, 0), ExpectOutcomes: 2})
 			// a table large enough to have more counter stripes than the minimum and 16384+ root buckets
 			name := fmt.Sprintf("C11/resize-histories/%s/large-table", bulkKinds[kind])
 			out = append(out, &Scenario{Name: name, Prop: "C11", Seq: bulkSpec(name, kind, 0, 1, 40000, 2+lvl, 0), ExpectOutcomes: 2})
